@@ -14,13 +14,13 @@ from .cgsmiles_utils import find_open_bonds, find_complementary_bonding_descript
 
 logger = logging.getLogger(__name__)
 
-def _select_bonding_operator(bonds, probabilities=None):
+def _select_bonding_operator(bonds, probabilities=None, rng=random):
     if probabilities:
         probs = np.array([probabilities.get(bond_type, 0) for bond_type in bonds])
         probs = probs / sum(probs)
-        bonding = random.choices(bonds, weights=probs)[0]
+        bonding = rng.choices(bonds, weights=probs)[0]
     else:
-        bonding  = random.choice(bonds)
+        bonding  = rng.choice(bonds)
     return bonding
 
 def _set_bond_order_defaults(bonding):
@@ -203,7 +203,9 @@ class MoleculeSampler:
         if seed is None:
             seed = time.time_ns()
             logger.info("Your random seed is %i", seed)
-        random.seed(a=seed)
+        # every sampler draws from a generator of its own, so that two
+        # samplers in one process do not disturb each other
+        self.random = random.Random(seed)
         self.fragment_dict = fragment_dict
         # we need to set some defaults and attributes
         self.polymer_reactivities = _set_bond_order_defaults(polymer_reactivities)
@@ -282,15 +284,15 @@ class MoleculeSampler:
         """
         # 1. get the probabilities of any bonding descriptor on the chain to
         #    form the new bond and pick one at random from the available ones
-        bonding = _select_bonding_operator(list(open_bonds.keys()), polymer_reactivities)
+        bonding = _select_bonding_operator(list(open_bonds.keys()), polymer_reactivities, rng=self.random)
         # 2. get a corresponding node; it may be that one descriptor is found on
         #    several nodes
-        source_node = random.choice(open_bonds[bonding])
+        source_node = self.random.choice(open_bonds[bonding])
         # 3. get the complementary matching bonding descriptor
         compl_bonds = find_complementary_bonding_descriptor(bonding, list(fragments.keys()))
-        compl_bonding = _select_bonding_operator(compl_bonds, fragment_reactivities.get(bonding, None))
+        compl_bonding = _select_bonding_operator(compl_bonds, fragment_reactivities.get(bonding, None), rng=self.random)
         # 4. pick a new fragment that has such bonding descriptor
-        fragname, target_node = random.choice(fragments[compl_bonding])
+        fragname, target_node = self.random.choice(fragments[compl_bonding])
         # 5. add the new fragment and do some book-keeping
         correspondence = merge_graphs(molecule, self.fragment_dict[fragname])
         molecule.add_edge(source_node,
@@ -341,7 +343,7 @@ class MoleculeSampler:
             fragment = self.fragment_dict[start_fragment]
         else:
             # initialize the molecule; all fragments have the same probability
-            fragname = random.choice(list(self.fragment_dict.keys()))
+            fragname = self.random.choice(list(self.fragment_dict.keys()))
             fragment = self.fragment_dict[fragname]
 
         merge_graphs(molecule, fragment)
